@@ -73,9 +73,19 @@ def build(scratch):
     ovj = os.path.join(scratch, "overlay.json")
     json.dump({"Replace": replace}, open(ovj, "w"), indent=1)
     out = os.path.join(scratch, "sim.test")
+    # optional overlay files reach into private functions; if the tree was refactored and one
+    # no longer compiles it is dropped (the op it serves is then skipped), never a build error
+    optional = {os.path.join(REPO, "actions", "zz_verif_stream.go"): os.path.join(VERIF, "overlay", "actions_zz_verif_stream.go")}
+    full = dict(replace)
+    full.update(optional)
+    json.dump({"Replace": full}, open(ovj, "w"), indent=1)
     r = subprocess.run([GO, "test", "-c", "-overlay", ovj, "-o", out, "."], cwd=VERIF + "/sim", env=env(), capture_output=True, text=True)
     if r.returncode != 0:
-        die("go test -c failed:\n" + r.stdout + r.stderr)
+        json.dump({"Replace": replace}, open(ovj, "w"), indent=1)
+        r2 = subprocess.run([GO, "test", "-c", "-overlay", ovj, "-o", out, "."], cwd=VERIF + "/sim", env=env(), capture_output=True, text=True)
+        if r2.returncode != 0:
+            die("go test -c failed:\n" + r.stdout + r.stderr)
+        print("NOTE: optional overlay dropped: " + (r.stderr or "")[:300], file=sys.stderr)
     return out
 
 
